@@ -212,9 +212,15 @@ func (s *Scanner) handleNATEntries(key KeyInterface, val ValueInterface, rev_ts 
 		// timestamp returned from the scanner will match the
 		// same as that of entry's ts. Just go ahead with deletion.
 		if ts == rev_ts {
-			dummy := s.versionHelper.dummyKey()
-			s.updateCleanupMap(key, dummy, ts, rev_ts)
-			return
+			// Equal timestamps are also what a request-direction packet leaves behind (it stamps
+			// both legs with the same time).  Only queue the forward entry on its own if the
+			// reverse entry is really gone (or is not a reverse entry); otherwise fall through
+			// and queue the pair so that the cleaner re-checks the reverse entry's last_seen.
+			if rev, err := s.get(revKey); maps.IsNotExists(err) || (err == nil && rev.Type() != TypeNATReverse) {
+				dummy := s.versionHelper.dummyKey()
+				s.updateCleanupMap(key, dummy, ts, rev_ts)
+				return
+			}
 		}
 		_, ok := s.revNATKeyToFwdNATInfo[revKey]
 		if !ok {
